@@ -788,7 +788,9 @@ def tree_name_to_values(inference_state, context, tree_name):
         types = imports.infer_import(context, tree_name)
     elif typ in ('funcdef', 'classdef'):
         types = _apply_decorators(context, node)
-    elif typ == 'try_stmt':
+    elif typ in ('try_stmt', 'error_node'):
+        # The definition of a name in an except clause is the parent of the
+        # clause; that is an error node while the try statement is incomplete.
         # TODO an exception can also be a tuple. Check for those.
         # TODO check for types that are not classes and add it to
         # the static analysis report.
